@@ -107,6 +107,9 @@ func (ev *Ev) state() *State { return ev.cur }
 
 func (ev *Ev) ident(name string) Val {
 	if v, ok := ev.lookupScope(name); ok {
+		if c, isCell := v.(CellRef); isCell {
+			return ev.deref(c.P)
+		}
 		return v
 	}
 	x := ev.x
@@ -433,7 +436,7 @@ func (ev *Ev) field(base Val, f string) Val {
 		}
 		return ev.field(b.V, f)
 	case Iface:
-		if f == "kind" && b.Kind != "" {
+		if (f == "kind" || f == "Kind") && b.Kind != "" {
 			return intV(b.Kind)
 		}
 		if f == "isnil" {
@@ -533,7 +536,7 @@ func (ev *Ev) binary(n *ast.BinaryExpr) Val {
 	case token.NEQ:
 		return boolV(sNot(ev.equal(l, r)))
 	}
-	a, b := tm(l), tm(r)
+	a, b := ev.sc(l), ev.sc(r)
 	switch n.Op {
 	case token.ADD:
 		return intV(sApp("+", a, b))
@@ -586,15 +589,22 @@ func (ev *Ev) equal(l, r Val) string {
 			if b.Why == "nil" {
 				return "true"
 			}
+			return x.opqNil(ev.cur, b)
 		}
 		ev.errf("comparison of %T with nil", r)
 	}
 	switch a := l.(type) {
 	case Sc:
-		return sEq(a.T, tm(r))
+		return sEq(a.T, ev.sc(r))
 	case GRec:
 		b, ok := r.(GRec)
 		if !ok {
+			if _, isSc := a.V.(Sc); isSc {
+				return sEq(ev.sc(a), ev.sc(r))
+			}
+			if _, isSt := r.(St); isSt {
+				return sAnd(a.Present, x.eqV(a.V, x.flat(ev.cur, r)))
+			}
 			ev.errf("comparison of a store record with %T", r)
 		}
 		return sAnd(sEq(a.Present, b.Present), sImp(a.Present, x.eqV(a.V, b.V)))
@@ -877,62 +887,63 @@ outer:
 
 // ---------------------------------------------------------------- recursive sums
 
-// SumFn is an uninterpreted function F(outer bound variables..., n) = Σ_{j=lo}^{n-1} body(j), introduced per distinct
-// body term; the generator adds one-step unfoldings at the index terms that occur in a query.
+// SumFn is a closed recursive function F(p0..pk, n) = Σ_{j=lo(p)}^{n-1} body(p, j). The body of a sum(...) term is made
+// closed by turning its maximal sub-terms that do not mention the summation variable into parameters, so that sums
+// over different states of the same arrays are applications of the same function to different arguments. The
+// generator adds one-step unfoldings and the congruence / point-update facts (smt.go) at the applications that
+// occur in a query.
 type SumFn struct {
 	Name   string
-	Outer  []string // outer bound variables occurring in the body
-	OSorts []string
-	Lo     string
-	BodyV  string // bound variable name used in Body
-	Body   string
+	PSorts []string
+	Lo     string // over p0?..pk?
+	Body   string // over p0?..pk? and sumvar
 }
 
 func (ev *Ev) sum(n *ast.CallExpr) Val {
 	x := ev.x
 	vn := n.Args[0].(*ast.Ident).Name
-	lo := tm(ev.eval(n.Args[1]))
-	hi := tm(ev.eval(n.Args[2]))
-	bv := "sumvar"
+	lo := ev.sc(ev.eval(n.Args[1]))
+	hi := ev.sc(ev.eval(n.Args[2]))
+	const bv = "sumvar"
 	body := ev.withScope(map[string]Val{vn: Sc{T: bv, Sort: "Int"}}, func() Val { return ev.eval(n.Args[3]) })
-	bt := tm(body)
-	// outer bound variables in the body
-	var outer, osorts []string
-	for i := range ev.scope {
-		for _, v := range ev.scope[i] {
-			if sc, ok := v.(Sc); ok && isBoundName(sc.T) && containsToken(bt, sc.T) {
-				dup := false
-				for _, o := range outer {
-					if o == sc.T {
-						dup = true
-					}
-				}
-				if !dup {
-					outer = append(outer, sc.T)
-					osorts = append(osorts, sc.Sort)
-				}
-			}
+	bt := ev.sc(body)
+	be, err := parseSx(bt)
+	if err != nil {
+		ev.errf("sum body: %v", err)
+	}
+	le, err := parseSx(lo)
+	if err != nil {
+		ev.errf("sum bound: %v", err)
+	}
+	var args []string
+	idx := map[string]int{}
+	cb := abstractParams(be, bv, &args, idx)
+	cl := abstractParams(le, bv, &args, idx)
+	var sorts []string
+	for _, a := range args {
+		ae, _ := parseSx(a)
+		so, err := sortOfSx(ae, x.symSort)
+		if err != nil {
+			ev.errf("sum parameter %s: %v", a, err)
 		}
+		sorts = append(sorts, so)
 	}
-	// canonical key: body with outer variables renamed positionally
-	key := lo + "|" + bt
-	for i, o := range outer {
-		key = replaceToken(key, o, fmt.Sprintf("$o%d", i))
-	}
+	key := cb.String() + "|" + cl.String() + "|" + strings.Join(sorts, ",")
 	sf, ok := x.sums[key]
 	if !ok {
-		sf = &SumFn{Lo: lo, BodyV: bv, Body: bt}
-		for i, o := range outer {
-			sf.Outer = append(sf.Outer, fmt.Sprintf("o%d_%d", i, len(x.sums)))
-			sf.Body = replaceToken(sf.Body, o, sf.Outer[i])
-			sf.Lo = replaceToken(sf.Lo, o, sf.Outer[i])
-		}
-		sf.OSorts = osorts
-		args := append(append([]string{}, osorts...), "Int")
-		sf.Name = x.declFun("sum", args, "Int")
+		sf = &SumFn{Lo: cl.String(), Body: cb.String(), PSorts: sorts}
+		sf.Name = x.declFun("sum", append(append([]string{}, sorts...), "Int"), "Int")
 		x.sums[key] = sf
 	}
-	return intV(sApp(sf.Name, append(append([]string{}, outer...), hi)...))
+	return intV(sApp(sf.Name, append(append([]string{}, args...), hi)...))
+}
+
+// symSort: sort of a declared symbol, declared function (result sort) or bound variable.
+func (x *X) symSort(name string) (string, bool) {
+	if s, ok := x.sorts[name]; ok {
+		return s, true
+	}
+	return "", false
 }
 
 func isBoundName(t string) bool {
@@ -987,4 +998,14 @@ func replaceToken(s, tok, with string) string {
 		i = p + len(tok)
 	}
 	return b.String()
+}
+
+// sc reads a value as a scalar term; a scalar store record (BidSeq, MatchedBidsLen) reads as 0 when absent.
+func (ev *Ev) sc(v Val) string {
+	if g, ok := v.(GRec); ok {
+		if sc, isSc := g.V.(Sc); isSc {
+			return sIte(g.Present, sc.T, "0")
+		}
+	}
+	return tm(v)
 }
